@@ -19,6 +19,18 @@ pub struct AcceptProbe {
     pub src: &'static str,
 }
 
+/// the converse: a bound that must NOT be loosened (bitwise-copying constructors must keep demanding `Copy`);
+/// these must be rejected with a trait-bound error
+pub const REJECT_PROBES: &[AcceptProbe] = &[
+    AcceptProbe { prop: "C06", what: "Arc::from_header_and_slice must reject non-Copy element types (it copies bitwise)", src: "fn p(h: u8, s: &[String]) -> Arc<HeaderSlice<u8, [String]>> { Arc::from_header_and_slice(h, s) }" },
+    AcceptProbe { prop: "C06", what: "ThinArc::from_header_and_slice must reject non-Copy element types", src: "fn p(h: u8, s: &[Box<u8>]) -> ThinArc<u8, Box<u8>> { ThinArc::from_header_and_slice(h, s) }" },
+    AcceptProbe { prop: "C06", what: "Arc<[T]>: From<&[T]> must reject non-Copy element types", src: "fn p(s: &[String]) -> Arc<[String]> { Arc::from(s) }" },
+    AcceptProbe { prop: "C10", what: "the recorded length behind a Protected header must not be writable from safe code (field access)", src: "fn p() { let mut t = ThinArc::from_header_and_slice(1u8, &[1u16, 2]); t.with_arc_mut(|a| { Arc::get_mut(a).unwrap().header.length = 1000; }); }" },
+    AcceptProbe { prop: "C10", what: "the Protected type must not deref (mutably) to the unchecked header slice", src: "fn p(x: &mut HeaderSliceWithLengthProtected<u8, u16>) -> &mut HeaderSlice<HeaderWithLength<u8>, [u16]> { &mut **x }" },
+    AcceptProbe { prop: "C10", what: "a Protected Arc must not convert into the unchecked form while a ThinArc view may exist (no From/Into between the two Arc types)", src: "fn p(a: Arc<HeaderSliceWithLengthProtected<u8, u16>>) -> Arc<HeaderSlice<HeaderWithLength<u8>, [u16]>> { a.into() }" },
+    AcceptProbe { prop: "C06", what: "a generic Clone-only element type is not enough for the bitwise-copying constructors", src: "fn p<T: Clone>(s: &[T]) -> Arc<[T]> { Arc::from(s) }" },
+];
+
 const PRELUDE: &str = "#![allow(unused, dead_code, deprecated)]\nuse triomphe::*;\nfn need<X: ?Sized>() {}\n";
 
 pub const PROBES: &[AcceptProbe] = &[
@@ -100,8 +112,9 @@ pub struct AcceptEngine {
 }
 
 impl AcceptEngine {
-    fn mine(&self) -> Vec<&'static AcceptProbe> {
-        PROBES.iter().filter(|p| p.prop == self.prop).collect()
+    /// (probe, must be rejected)
+    fn mine(&self) -> Vec<(&'static AcceptProbe, bool)> {
+        PROBES.iter().filter(|p| p.prop == self.prop).map(|p| (p, false)).chain(REJECT_PROBES.iter().filter(|p| p.prop == self.prop).map(|p| (p, true))).collect()
     }
 }
 
@@ -124,15 +137,16 @@ impl Engine for AcceptEngine {
     fn run(&self, c: &ByteCase, trace: bool) -> CaseReport {
         let _ = viol::take();
         let probes = self.mine();
-        let p = probes[c.p(0) as usize % probes.len()];
+        let (p, must_reject) = probes[c.p(0) as usize % probes.len()];
         let mut tr = vec![];
         let props: &'static [&'static str] = match self.prop {
             "C17" => &["C17"],
             "C14" => &["C14"],
+            "C10" => &["C10"],
             _ => &["C06"],
         };
         match lib() {
-            Err(e) => viol::report_sig(&["C06", "C14", "C17"], "M.probe-lib", "probe-lib".into(), e.clone()),
+            Err(e) => viol::report_sig(&["C06", "C10", "C14", "C17"], "M.probe-lib", "probe-lib".into(), e.clone()),
             Ok(l) => {
                 let dir = std::env::temp_dir().join(format!("tv-accept-{}", std::process::id()));
                 let _ = std::fs::create_dir_all(&dir);
@@ -151,7 +165,7 @@ impl Engine for AcceptEngine {
                 }
                 let o = cmd.arg(&file).env_remove("RUSTFLAGS").output();
                 match o {
-                    Err(e) => viol::report_sig(&["C06", "C14", "C17"], "M.probe-rustc", "probe-rustc".into(), format!("rustc: {}", e)),
+                    Err(e) => viol::report_sig(&["C06", "C10", "C14", "C17"], "M.probe-rustc", "probe-rustc".into(), format!("rustc: {}", e)),
                     Ok(o) => {
                         let err = String::from_utf8_lossy(&o.stderr).into_owned();
                         if trace {
@@ -159,7 +173,13 @@ impl Engine for AcceptEngine {
                             tr.push(format!("source: {}", p.src));
                             tr.push(format!("rustc: {}", if o.status.success() { "accepted".to_string() } else { err.lines().filter(|l| l.contains("error")).take(3).collect::<Vec<_>>().join(" | ") }));
                         }
-                        if !o.status.success() {
+                        if must_reject {
+                            if o.status.success() {
+                                viol::report_sig(props, "A.bound-loosened", format!("reject:{}", p.what), format!("a client program that must be rejected compiles — {}", p.what));
+                            } else if !["E0277", "E0308", "E0599", "E0609", "E0610", "E0614", "E0615", "E0616"].iter().any(|c| err.contains(c)) {
+                                viol::report_sig(&["C06", "C10", "C14", "C17"], "M.probe-rustc", "probe-rustc".into(), format!("reject probe failed for an unexpected reason: {}", err.lines().filter(|l| l.contains("error")).take(2).collect::<Vec<_>>().join(" | ")));
+                            }
+                        } else if !o.status.success() {
                             let first = err.lines().filter(|l| l.contains("error")).take(2).collect::<Vec<_>>().join(" | ");
                             viol::report_sig(props, "A.bound-tightened", format!("accept:{}", p.what), format!("a client program that must compile is rejected — {}: {}", p.what, first));
                         }
